@@ -153,7 +153,11 @@ class SqliteWorkflowStore(
         try:
             yield txn
             conn.commit()
-        except Exception:
+        except BaseException:
+            # BaseException, not Exception: a KeyboardInterrupt / SystemExit
+            # inside the block must also roll back and unbind the scope.
+            # Otherwise the connection stays inside the abandoned transaction
+            # and the next commit on this thread makes its writes durable.
             conn.rollback()
             # Restore in-memory versions to match rolled-back database state
             txn.rollback_versions()
